@@ -166,6 +166,20 @@ func c11Workloads(c *core.Ctx, srvURL string) []c11Workload {
 		}
 	}
 	ws = append(ws, c11Workload{Name: "collisions-lone-cr", Files: crFiles, Config: c11CollisionConfig, BinaryOnly: true})
+	// online: rules that differ only in `offset`, recorded under one name, with many other readers of the same
+	// expressions (a check that changed the shared query tree of a rule would be seen by whichever job runs after it)
+	{
+		var b strings.Builder
+		b.WriteString("groups:\n- name: offsets\n  rules:\n")
+		for i := 0; i < 6; i++ {
+			m := []string{"errors_total", "requests_total", "foo"}[i%3]
+			fmt.Fprintf(&b, "  - record: same:rule%d\n    expr: sum(%s offset %dm)\n", i%3, m, 5+i)
+			fmt.Fprintf(&b, "  - record: same:rule%d\n    expr: sum(%s)\n", i%3, m)
+			fmt.Fprintf(&b, "  - alert: Off%d\n    expr: %s offset 1h == 0 or rate(%s[5m] offset 10m) > 1\n    for: 5m\n", i, m, m)
+		}
+		ws = append(ws, c11Workload{Name: "online-offsets", Files: map[string]string{"rules/offsets.yml": b.String()},
+			Config: fmt.Sprintf("prometheus \"prom\" {\n  uri = %q\n  timeout = \"30s\"\n}\n", srvURL), Online: true, BinaryOnly: true})
+	}
 	// online scenario: promapi's cache, key locks and worker pool under contention
 	ws = append(ws, c11Workload{Name: "scenario-online", Files: scenarioRules(srvURL), Config: scenarioConfig(srvURL, 0), Online: true})
 	ws = append(ws, c11Workload{Name: "scenario-offline", Files: scenarioRules(srvURL), Config: scenarioConfig("", 3)})
